@@ -9,7 +9,7 @@ RUN_MODULE = "RunC20"
 TRANSLATOR_UNITS = []
 RULE = ("fmt: the whole accepted grammar fill{none,' ','*','0','x'} x align{none,<,>,=} x sign x '#' x '0' x "
         "width{none,1,5,12} x '_' x type{none,b,o,d,x,X,c,s} (19456 specs, each with a shape that accepts it when one "
-        "exists, 8% with a rejecting shape) x boundary/random values (4 per spec quick, 10 thorough), model py_format vs "
+        "exists, 8% with a rejecting shape) x boundary/random values (1 per spec quick, 6 thorough), model py_format vs "
         "CPython format(); spec: grammar-random and mutated/invalid spec strings ('^', ',', 'n', precision, '00', "
         "unicode/brace/newline fills, '=' or sign or '#' with c/s, s on widths not multiple of 8) vs Format(...) "
         "accept/ValueError and the dict of _parse_format_spec; sim: random sync designs (1-4 input signals, nested "
@@ -36,19 +36,8 @@ def _codes(s):
 
 
 def _pack(s):
-    """[number of code points, code points packed in base 2^21] (injective; keeps case files small)"""
-    acc = 0
-    for ch in s:
-        acc = (acc << 21) + ord(ch)
-    return [len(s), acc]
-
-
-def unpack(n, acc):
-    out = []
-    for _ in range(n):
-        out.append(chr(acc & 0x1fffff))
-        acc >>= 21
-    return "".join(reversed(out))
+    """[number of code points] + code points"""
+    return [len(s)] + _codes(s)
 
 
 def classify(c):
@@ -66,9 +55,9 @@ def nontrivial(c, obs):
         return False
     if c["k"] in ("fmt", "spec"):
         return obs[0] == 1
-    if obs == [-2] or len(obs) < 4:
+    if obs[0] < 0 or len(obs) < 3:
         return False
-    return obs[0] > 0 or obs[2] != 0
+    return obs[0] != 0 or obs[2] > 0
 
 
 # ------------------------------------------------------------------ generators
@@ -138,20 +127,20 @@ def gen_cases(tier, seed):
     thorough = tier == "thorough"
     cases = []
     # --- stream 1: the whole accepted grammar against CPython
-    nv = 10 if thorough else 3
+    nv = 6 if thorough else 2
     fa = [""] + list(ALIGN) + [f + a for f in " *0x" for a in ALIGN]
     for fill_align, sign, alt, zero, width, grp, t in itertools.product(
             fa, ["", "-", "+", " "], ["", "#"], ["", "0"], ["", "1", "5", "12"], ["", "_"], TYPES):
         spec = fill_align + sign + alt + zero + width + grp + t
         w, sg = _shape_for(rng, t, bad=rng.random() < 0.08)
-        cases.append({"k": "fmt", "spec": spec, "w": w, "sg": sg, "vs": _fmt_values(rng, t, w, nv)})
+        cases.append({"k": "fmt", "spec": spec, "w": w, "sg": sg, "vs": _fmt_values(rng, t, w, nv if thorough else 1)})
     # wider widths / other fills, random
-    for _ in range(2500 if not thorough else 60000):
+    for _ in range(1500 if not thorough else 20000):
         spec, t = _rand_spec(rng, valid=True)
         w, sg = _shape_for(rng, t)
         cases.append({"k": "fmt", "spec": spec, "w": w, "sg": sg, "vs": _fmt_values(rng, t, w, nv)})
     # --- stream 2: accept / reject and the parsed dict
-    for _ in range(6000 if not thorough else 80000):
+    for _ in range(3000 if not thorough else 30000):
         r = rng.random()
         if r < 0.35:
             spec, t = _rand_spec(rng, valid=True)
@@ -176,15 +165,16 @@ def gen_cases(tier, seed):
         for (w, sg) in [(8, False), (8, True), (12, False), (0, False), (1, True)]:
             cases.append({"k": "spec", "cls": "fixed", "spec": spec, "w": w, "sg": sg})
     # --- stream 3: simulations
-    for i in range(2200 if not thorough else 40000):
+    for i in range(800 if not thorough else 12000):
         cases.append(_rand_sim(rng, thorough))
+    rng.shuffle(cases)          # every shard gets the same mix of cheap and expensive cases
     return cases
 
 
 FILLS = [" ", "*", "0", "x", "<", "^", "=", ">", "-", "+", "#", "_", "é", "中", "1", "s", "c", ",", "n"]
 
 
-def _rand_spec(rng, valid, shape=None, allow_brace=False):
+def _rand_spec(rng, valid, shape=None, allow_brace=False, small=False):
     """returns (spec, type); valid=True stays inside the grammar accepted for a suitable shape"""
     types = TYPES
     if shape is not None and valid:
@@ -211,7 +201,7 @@ def _rand_spec(rng, valid, shape=None, allow_brace=False):
     sign = "" if plain else rng.choice(["", "", "-", "+", " "])
     alt = "" if plain else rng.choice(["", "", "#"])
     zero = "" if plain else rng.choice(["", "", "0"])
-    width = rng.choice(["", "", "1", "2", "3", "5", "7", "9", "10", "12", "20", "33", "100"])
+    width = rng.choice(["", "", "1", "2", "3", "5", "7", "9", "10", "12", "20"] + ([] if small else ["33", "100"]))
     grp = "" if plain else rng.choice(["", "", "_"])
     if not valid and rng.random() < 0.06:
         grp = ","
@@ -278,7 +268,7 @@ def _rand_sim(rng, thorough):
             valid = rng.random() < 0.97
             if not valid:
                 stats["bad"] += 1
-            spec, _ = _rand_spec(rng, valid=valid, shape=vshape(e), allow_brace=brace)
+            spec, _ = _rand_spec(rng, valid=valid, shape=vshape(e), allow_brace=brace, small=True)
             if brace and spec[:1] in "{}":
                 stats["brace"] += 1
             chunks.append(["fld", e, spec])
@@ -296,9 +286,9 @@ def _rand_sim(rng, thorough):
 
     def body(depth):
         out = []
-        for _ in range(rng.choice([1, 1, 2, 2, 3])):
+        for _ in range(rng.choice([1, 1, 2] if depth < top else [1, 2, 2, 3])):
             r = rng.random()
-            if depth > 0 and r < 0.35:
+            if depth > 0 and r < 0.4:
                 stats["ctl"] += 1
                 if rng.random() < 0.55:
                     arms = [[rng.randrange(nsig), body(depth - 1)] for _ in range(rng.choice([1, 1, 2, 3]))]
@@ -317,6 +307,8 @@ def _rand_sim(rng, thorough):
                 stats["prop"] += 1
                 kind = rng.choice(["assert", "assert", "assume", "cover"])
                 msg = rng.choice([None, "fmt", "fmt", "str"])
+                if kind == "cover" and msg is None and rng.random() < 0.85:
+                    msg = "fmt"
                 if msg == "fmt":
                     msg = fmt()
                 elif msg == "str":
@@ -324,7 +316,8 @@ def _rand_sim(rng, thorough):
                 out.append(["prop", kind, vexpr(), msg])
         return out
 
-    prog = body(rng.choice([0, 1, 2, 2, 3]))
+    top = rng.choice([0, 1, 1, 2, 2, 3])
+    prog = body(top)
     pos = rng.random() < 0.7
     has_rst = rng.random() < 0.5
     steps = []
@@ -476,7 +469,10 @@ def _run_sim(c):
                 ctx.set(cd.rst, st[1])
         cur[0] = len(c["steps"])
 
-    sim = Simulator(m)
+    try:
+        sim = Simulator(m)
+    except SyntaxError as e:      # generated process code does not compile
+        return _exc_code(e)
     sim.add_testbench(tb)
     buf = io.StringIO()
     code, msg = 0, ""
@@ -492,7 +488,7 @@ def _run_sim(c):
     text = buf.getvalue()
     for p in prefixes:
         text = text.replace(p, "\x1f")
-    return _pack(text) + [code, cur[0]] + (_pack(msg) if code else [])
+    return [code, cur[0]] + _pack(text) + (_pack(msg) if code else [])
 
 
 # ------------------------------------------------------------------ model side
@@ -570,33 +566,65 @@ def coq_term(c):
 
 
 def explain(c):
-    return ("texts are [n code points, code points packed base 2^21] (c20.unpack); "
+    return ("texts are n :: n code points; "
             "fmt: [0] rejected | 1 :: per value (text | -1 when Python raises); spec: [0] | 1 :: dict; "
-            "sim: stdout text ++ [code; step] ++ exception text (code 0 finished, 1 AssertionError, "
+            "sim: [code; step] ++ stdout text ++ exception text (code 0 finished, 1 AssertionError, "
             "2 OverflowError, 3 UnicodeDecodeError, 4 ValueError), [-2] ValueError at construction; \\x1f = 'Coverage hit at f:l:'")
 
 
-# ------------------------------------------------------------------ finding: brace fill
+# ------------------------------------------------------------------ findings
 BRACE_ID = "C20-brace-fill"
+EMPTY_ID = "C20-cover-empty-block"
+
+
+def _bodies(stmts):
+    """every statement list of the program that becomes one indented block of the generated process"""
+    for st in stmts:
+        if st[0] == "if":
+            for _, b in st[1]:
+                yield b
+                yield from _bodies(b)
+            if st[2] is not None:
+                yield st[2]
+                yield from _bodies(st[2])
+        elif st[0] == "switch":
+            for _, b in st[2]:
+                yield b
+                yield from _bodies(b)
+
+
+def _formats(stmts):
+    for st in stmts:
+        if st[0] == "print":
+            yield st[1]
+        elif st[0] == "prop" and st[3]:
+            yield st[3]
+    for b in _bodies(stmts):
+        for st in b:
+            if st[0] == "print":
+                yield st[1]
+            elif st[0] == "prop" and st[3]:
+                yield st[3]
+
+
+def _silent(b):
+    return all(st[0] == "prop" and st[1] == "cover" and st[3] is None for st in b)
 
 
 def known_finding(case, obs, model):
-    """the model follows the code (ValueError at run time); if the code is repaired the model's `Err 4` no longer matches"""
     if case["k"] != "sim":
         return None
-
-    def has_brace(stmts):
-        for st in stmts:
-            if st[0] == "print" and any(ch[0] == "fld" and ch[2][:1] in ("{", "}") and ch[2][1:2] in tuple("<>=") for ch in st[1]):
-                return True
-            if st[0] == "prop" and st[3] and any(ch[0] == "fld" and ch[2][:1] in ("{", "}") and ch[2][1:2] in tuple("<>=") for ch in st[3]):
-                return True
-            if st[0] == "if" and (any(has_brace(b) for _, b in st[1]) or (st[2] and has_brace(st[2]))):
-                return True
-            if st[0] == "switch" and any(has_brace(b) for _, b in st[2]):
-                return True
-        return False
-    return BRACE_ID if has_brace(case["prog"]) else None
+    # Cover without message is the only content of a block: the generated code has an empty block
+    # (model = spec: such a Cover does nothing; the code raises IndentationError when the simulator is built)
+    if obs == [-1, sum(map(ord, "IndentationError"))] and (
+            any(_silent(b) for b in _bodies(case["prog"])) or (_silent(case["prog"]) and not case["rst"])):
+        return EMPTY_ID
+    # the model follows the code for brace fills (ValueError at run time, C20_emit_brace_fill_refuted);
+    # a disagreement on such a case belongs to the same finding
+    if any(ch[0] == "fld" and ch[2][:1] in ("{", "}") and ch[2][1:2] in ("<", ">", "=")
+           for f in _formats(case["prog"]) for ch in f):
+        return BRACE_ID
+    return None
 
 
 def extra(tier, seed, findings):
@@ -610,7 +638,7 @@ def extra(tier, seed, findings):
         case = {"k": "sim", "cls": "print+brace", "sigs": [[8, False]], "pos": True, "rst": False,
                 "prog": [["print", [["fld", ["sig", 0], spec]]]], "steps": [["set", 0, v], ["clk", 1]]}
         obs = _run_sim(case)
-        exp = _pack(format(v, spec) + "\n") + [0, 2]
+        exp = [0, 2] + _pack(format(v, spec) + "\n")
         if obs != exp:
             seen += 1
             listed = [f for f in findings if f.get("property") == ID and f.get("id") == BRACE_ID and f.get("status") == "open"]
@@ -622,3 +650,59 @@ def extra(tier, seed, findings):
                              "explain": "spec accepted by Format with a '{'/'}' fill: simulation must print format(v, spec); "
                                         "see Props/C20.v C20_emit_brace_fill_refuted. " + explain(case)})
     return viol, {"brace_fill_probe": {"probes": 3, "failing": seen}}
+
+
+# ------------------------------------------------------------------ shrinking (simulator build failures only)
+def _stmt_variants(stmts):
+    """all statement lists obtained by one deletion / simplification somewhere in the tree"""
+    for i, st in enumerate(stmts):
+        pre, post = stmts[:i], stmts[i + 1:]
+        yield pre + post
+        if st[0] == "if":
+            arms, els = st[1], st[2]
+            if els is not None:
+                yield pre + [["if", arms, None]] + post
+                for nb in _stmt_variants(els):
+                    if nb:
+                        yield pre + [["if", arms, nb]] + post
+            for j, (sig, b) in enumerate(arms):
+                if len(arms) > 1:
+                    yield pre + [["if", arms[:j] + arms[j + 1:], els]] + post
+                for nb in _stmt_variants(b):
+                    if nb:
+                        yield pre + [["if", arms[:j] + [[sig, nb]] + arms[j + 1:], els]] + post
+        elif st[0] == "switch":
+            arms = st[2]
+            for j, (p, b) in enumerate(arms):
+                if len(arms) > 1:
+                    yield pre + [["switch", st[1], arms[:j] + arms[j + 1:]]] + post
+                for nb in _stmt_variants(b):
+                    if nb:
+                        yield pre + [["switch", st[1], arms[:j] + [[p, nb]] + arms[j + 1:]]] + post
+        elif st[0] == "print" and st[1] != [["lit", "x"]]:
+            yield pre + [["print", [["lit", "x"]]]] + post
+        elif st[0] == "prop" and st[3] not in (None, [["lit", "x"]]):
+            yield pre + [["prop", st[1], st[2], [["lit", "x"]]]] + post
+
+
+def shrink(case, obs, model):
+    """greedy structural shrinking of a design the simulator refuses to build (the observation is an exception raised
+    by Simulator(m), independent of the stimulus); other mismatches are replayed as generated"""
+    if case["k"] != "sim" or obs[:1] != [-1]:
+        return case, obs, model
+    cur = dict(case, steps=[])
+    if run_impl(cur) != obs:
+        cur = case
+    progress = True
+    while progress:
+        progress = False
+        for prog in _stmt_variants(cur["prog"]):
+            cand = dict(cur, prog=prog)
+            if prog and run_impl(cand) == obs and known_finding(cand, obs, None) == known_finding(case, obs, None):
+                cur, progress = cand, True
+                break
+    import common as C
+    mism, errors = C.run_model(ID + "_shrink", RUN_MODULE, [coq_term(cur)], [obs], shard_size=SHARD)
+    if errors or 0 not in mism:
+        return case, obs, model
+    return cur, obs, mism[0]
